@@ -100,6 +100,9 @@ def run(prop, tier, seed, rep):
                 w["alloc"] = ev["alloc"]
             rep.mismatch(owner, v["cls"], field, w)
     json.dump(summary, open(os.path.join(core.BUILD, f"last_{prop}_verdicts.json"), "w"), indent=1, sort_keys=True)
+    if tier == "thorough":
+        idx = next(i for i, e in enumerate(events) if e["ev"] == "cdecode" and e["alloc"]["out"].get("ok") == 1)
+        core.anti_vacuity(rep, "Trace_Config", events[:idx + 10], [(idx, lambda e: (e["alloc"]["out"].update(crc=e["alloc"]["out"]["crc"] ^ 1), e)[1], "C20")], name="C20-selftest")
     # --- tracker serde round trips: histories with serde steps, judged by Trace_Tracker ----------------------
     shists = [track_checks.random_history(rng, f"s{i}", rng.choice((60, 150)), rng.choice((1, 3, 6)), with_time=False, with_serde=True)
               for i in range(q(20, 300))]
